@@ -210,6 +210,11 @@ pub fn field_mutations(spec: &XzSpec, file: &XzFile) -> Vec<(Mut, bool)> {
     for val in [1u8, 0x80] {
         v.push((Mut::IndexIndicator(val), false));
     }
+    // bytes after the footer (the footer mechanism includes 'no trailing data'): not a stream padding length (1,2,3,5 zero bytes),
+    // stream padding (4, 8 zero bytes; unsupported by lzma-rs), other bytes
+    for t in [vec![0u8], vec![0; 2], vec![0; 3], vec![0; 4], vec![0; 5], vec![0; 8], vec![1], vec![0, 0, 0, 1], vec![0xFD, 0x37]] {
+        v.push((Mut::Trailing(t), true));
+    }
     v
 }
 
